@@ -4,7 +4,7 @@
     allocation + steps <= 901 * len(input) + 2446529. *)
 From Coq Require Import String List NArith Bool Lia.
 From Tongo Require Import Lib.Bits Lib.Res Spec.TlWire Model.Tl Model.TlTotal
-     Proofs.TlTotalP Proofs.TlTotalP2 Proofs.FramingP Generated.TlBindings.
+     Proofs.TlTotalP Proofs.TlTotalP2 Proofs.TlbTotalP Model.Framing Proofs.FramingP Generated.TlBindings.
 Import ListNotations.
 Local Open Scope N_scope.
 
@@ -51,4 +51,29 @@ Proof.
   { unfold worst_intercept. apply maxl_in.
     apply (in_map (fun b => kk tl_bindings c08_fuel (GNamed (b_name b)) + ee tl_bindings c08_fuel (GNamed (b_name b)))). exact Hb. }
   subst r. lia.
+Qed.
+
+(** liteclient.LiteapiRequestDecoder, over the generated request table: for every byte string
+    received it never panics (too short: error; otherwise a request or "Unknown") *)
+Lemma request_table_ok :
+  forallb (fun e => match e with (_, _, ty, _) => sok tl_bindings c08_rate c08_fuel (GNamed ty) end)
+          tl_request_table = true.
+Proof. vm_compute. reflexivity. Qed.
+
+Theorem C08_request_decoder_total :
+  forall b p, Framing.request_decode tl_bindings tl_request_table c08_fuel b <> Panic p.
+Proof.
+  intros b p.
+  assert (H : TlbTotalP.np (Framing.request_decode tl_bindings tl_request_table c08_fuel b)).
+  { apply (request_decode_total tl_bindings c08_rate).
+    intros a x ty c Hin. pose proof request_table_ok as Hf.
+    rewrite forallb_forall in Hf. exact (Hf _ Hin). }
+  intros E. rewrite E in H. exact H.
+Qed.
+
+(** every constructor tag of the table is reachable with a decodable request: not vacuous *)
+Theorem C08_request_decoder_satisfiable :
+  exists b ty, Framing.request_decode tl_bindings tl_request_table c08_fuel b = Ok (Some ty).
+Proof.
+  exists [0x34; 0x5a; 0xad; 0x16]%N. vm_compute. eexists. reflexivity.
 Qed.
